@@ -293,7 +293,14 @@ def build_jobs(prop, tier):
                            + history_suites("fastq", tier)[:1] + fault_suites("fastq", tier)[1:]))
     elif prop == "C18":
         fl = {"alloc": True}
-        J.append(ReaderJob("c18", plain_suites("fasta", tier, fl)[3:4] + plain_suites("fastq", tier, fl)[3:4] + history_suites("fasta", tier, fl, seeks=False)[1:] + history_suites("fastq", tier, fl, seeks=False)))
+        reuse = []
+        # a record set that has seen the end of the input (or an error) and is then reused for the same, no larger records
+        S0 = {"o": "set", "s": 0}
+        hist = {"fixed": [{"ops": [S0] * k + [{"o": "seekl", "i": 0}] + [S0] * 3, "tail": S0} for k in (2, 3, 4, 6)]
+                         + [{"ops": [{"o": "next"}] * 2 + [S0] * k + [{"o": "seekl", "i": 1}] + [S0] * 2, "tail": S0} for k in (2, 4)]}
+        for fmt in ("fasta", "fastq"):
+            reuse.append(("reuse-after-end-" + fmt, suite(fmt, rnd(q(tier, 500, 5000), maxrec=6, maxfield=5, damage=15), [8, 16, 64], hist, chunks=[[0]], slots=1, extra=1, flags=fl), 4))
+        J.append(ReaderJob("c18", plain_suites("fasta", tier, fl)[3:4] + plain_suites("fastq", tier, fl)[3:4] + history_suites("fasta", tier, fl, seeks=False)[1:] + history_suites("fastq", tier, fl, seeks=False) + reuse))
     elif prop == "C19":
         fl = {"serde": True}
         J.append(ReaderJob("c19", plain_suites("fasta", tier, fl)[2:4] + plain_suites("fastq", tier, fl)[2:4] + history_suites("fasta", tier, fl, serde=True)[1:] + history_suites("fastq", tier, fl, serde=True)))
